@@ -5,7 +5,7 @@ and stores it as /verif/seeded/<ID>/{patch.diff,demo.py,meta.json}.  Nothing is 
 import json, os, shutil, subprocess, sys, tempfile, xml.etree.ElementTree as ET
 ID = sys.argv[1]
 skip = "--skip-suite" in sys.argv
-src = "/tmp/mut/out"
+src = os.environ.get("SRC", "/tmp/mut3/out")
 wt = f"/var/tmp/confirm_{ID}.{os.getpid()}"
 def run(cmd, **kw):
     return subprocess.run(cmd, shell=True, capture_output=True, text=True, **kw)
